@@ -70,8 +70,8 @@ def oracle_c07(case, obs):
     if sorted(got + left) != sorted(pushed):
         return "FAIL requests pushed %r, handed out %r, still queued %r: lost or duplicated" % (pushed, got, left)
     # per receiver order (one producer: push order)
-    for t in set(int(op[1:op.index(".")]) for op in ops if op.startswith("r")):
-        mine = [o["res"][i][1:] for i in sorted(o["res"]) if ops[i].startswith("r%d." % t) and o["res"][i].startswith("v")]
+    for t in set(int(op[1:op.index(".")]) for op in ops if op[0] in "rR"):
+        mine = [o["res"][i][1:] for i in sorted(o["res"]) if ops[i][1:].startswith("%d." % t) and o["res"][i].startswith("v")]
         idx = [pushed.index(v) for v in mine]
         if idx != sorted(idx):
             return "FAIL receiver %d saw the requests out of order: %r" % (t, mine)
